@@ -28,7 +28,10 @@ RULE = ("records = (write/read history, storage configuration); histories are dr
         "elements at offsets 0..4096 sharing their file with foreign guard bytes in front, written completely and then "
         "partially rewritten near the end, with the guard bytes and the placement of the data in the external file "
         "checked at the end; in about half of all records 1-3 other attributes are set before and 0-3 after the fill "
-        "value ahead of the layout-selection call (the object's other metadata must not matter). Thorough tier: every chunk shape of every extent up to "
+        "value ahead of the layout-selection call (the object's other metadata must not matter), and for 30 % of the SD "
+        "records the layout is selected in a later session than SDcreate; SD_NOFILL sessions (chunked, compressed, n-bit, "
+        "contiguous); float64 datasets of 1-3 MB whose first write starts more than a megabyte in; GR writes/reads with "
+        "strides 1-3 incl. a sub-sampled first write into a new image. Thorough tier: every chunk shape of every extent up to "
         "4x4x3 with cache sizes 1..chunks+1. Each record's output is compared with the array specification. "
         "Function level: static chunk arithmetic of hchunks.c and mcache_get/put/sync vs the Coq models on generated "
         "and exhaustive small cases. A record is non-trivial when it transfers data under a non-baseline layout; "
@@ -51,7 +54,7 @@ ASSUMPTIONS = ["domain: fixed-size datasets (SDsetchunk rejects unlimited); n-bi
                "representable fill value (records whose written values are all representable are compared exactly, the others "
                "only after projecting the library's values, which cannot see a wrong fill/sign flag); non-chunked compressed datasets accept only appends and whole rewrites "
                "(coders return FAIL otherwise: a reported refusal ends the comparison of that record, silent corruption "
-               "does not); GR histories use stride 1 (strided GR writes belong to C09); GR write buffers are laid out in the "
+               "does not); GR write buffers are laid out in the "
                "interlace GRgetiminfo reports (creation interlace in the creating session, pixel after a reopen), read "
                "buffers in the interlace requested with GRreqimageil (pixel if never requested)",
                "GR chunk geometry follows GRsetchunk: the chunk layer views the pixel stream as an [xdim][ydim] array"]
